@@ -226,7 +226,7 @@ def queryObs (st : St) (c : Cmd) : St × Verdict :=
     match c.arg 0 with
     | "count" => (st, .exact (toString s.numDocs))
     | "fields" => (st, .exact (strList (s.fieldNames.map nameStr)))
-    | "dvfields" => (st, .exact (strList (sortStrs (s.dvFieldNames.map nameStr))))
+    | "dvfields" => (st, .exact (strList (s.dvFieldNames.map nameStr)))
     | "post" => (st, .exact (postObs st s c))
     | "dict" => (st, .exact (dictObs st s c))
     | "dictpair" => (st, .exact (dictPairObs st s c))
